@@ -19,6 +19,46 @@ namespace {
 int depthOf(const Expr& e) { int d = 0; for (auto& k : e.kids) d = std::max(d, depthOf(*k)); return d + 1; }
 bool hasKind(const Expr& e, std::initializer_list<TID> ids) { for (auto id : ids) if (e.id == id) return true; for (auto& k : e.kids) if (hasKind(*k, ids)) return true; return false; }
 
+// Compositionality, independent of the reference typing rules: a subterm of an ACCEPTED expression that is closed (every local
+// it uses is declared inside it, and none of those names is also declared outside it) is an expression in the same global
+// context and must be accepted on its own.  A checker that skips some operand under a shortcut accepts the whole and
+// rejects the part.
+Verdict closedSubtermsAccepted(const EP& root, const LibEnv& env, const std::string& whole) {
+  struct Occ { const Expr* node; bool decl; };
+  std::vector<std::pair<const Expr*, std::vector<Occ>>> candidates;  // subterm -> local occurrences inside it
+  std::vector<Occ> all;
+  std::function<void(const Expr&, const Expr*, size_t, bool)> walk = [&](const Expr& e, const Expr* parent, size_t idx, bool declCtx) {
+    const bool declHere = declCtx || (parent != nullptr && isDeclPosition(*parent, idx));
+    if (e.id == TID::ID_LOCAL) all.push_back({&e, declHere});
+    for (size_t i = 0; i < e.kids.size(); ++i) walk(*e.kids[i], &e, i, declHere && e.id != TID::NT_ARG_DECL ? true : (e.id == TID::NT_TUPLE_DECL || e.id == TID::NT_ENUM_DECL));
+  };
+  walk(*root, nullptr, 0, false);
+  auto inside = [](const Expr& top, const Expr* x) { std::function<bool(const Expr&)> f = [&](const Expr& e) { if (&e == x) return true; for (auto& k : e.kids) if (f(*k)) return true; return false; }; return f(top); };
+  std::vector<const Expr*> subs;
+  std::function<void(const Expr&, const Expr*, size_t)> collect = [&](const Expr& e, const Expr* parent, size_t idx) {
+    const bool declPos = parent != nullptr && (isDeclPosition(*parent, idx) || parent->id == TID::NT_TUPLE_DECL || parent->id == TID::NT_ENUM_DECL || parent->id == TID::NT_ARG_DECL || parent->id == TID::NT_ARGUMENTS);
+    if (parent != nullptr && !declPos && isTermNode(e) && !e.kids.empty()) subs.push_back(&e);
+    if (!declPos) for (size_t i = 0; i < e.kids.size(); ++i) collect(*e.kids[i], &e, i);
+  };
+  collect(*root, nullptr, 0);
+  int checked = 0;
+  for (const Expr* sub : subs) {
+    if (checked >= 8) break;
+    std::set<std::string> used, declIn, declOut;
+    for (auto& o : all) { const bool in = inside(*sub, o.node); if (in) used.insert(o.node->name); if (o.decl) (in ? declIn : declOut).insert(o.node->name); }
+    bool closed = true; for (auto& n : used) if (!declIn.count(n) || declOut.count(n)) closed = false;
+    if (!closed) continue;
+    ++checked;
+    const std::string text = render(std::make_shared<Expr>(*sub));
+    rl::Auditor a(env, env.valueContext(), env.astContext());
+    if (!a.CheckType(text, rl::Syntax::MATH)) {
+      std::string errs; for (auto& er : a.Errors().All()) { char b[40]; snprintf(b, sizeof b, " %04X@%d", er.eid, er.position); errs += b; }
+      return pbt::fail("accepted-whole-rejected-part", "'" + whole + "' is accepted but its closed subterm '" + text + "' is rejected:" + errs);
+    }
+  }
+  return pbt::pass();
+}
+
 Verdict typeWith(Ctx& c, bool scoping, bool templates = false) {
   TypedGen g(c);
   g.optReuseNames = scoping;  // binders re-declare names whose earlier scope has ended, at any depth
@@ -87,6 +127,7 @@ Verdict typeWith(Ctx& c, bool scoping, bool templates = false) {
     const int len = syn == rl::Syntax::MATH ? ccl::SizeInCodePoints(text) : static_cast<int>(text.size());
     for (auto& er : audit.Errors().All()) CHECK(er.position >= 0 && er.position <= len, "error-position", "'" + text + "' error position out of the text:" + errText);
   }
+  if (accepted) { const Verdict v = closedSubtermsAccepted(e, env, text); if (v.kind != Verdict::PASS) return v; }
   if (ref.st == TR::UNSPEC) { c.count("unspecified-by-reference"); return pbt::pass(); }
   if (!doMutate && ref.st == TR::REJECT) { c.count("generator-vs-reference"); return pbt::discard("generator-ill-typed-by-reference"); }
   CHECK(accepted == (ref.st == TR::OK), accepted ? "over-acceptance" : "under-acceptance", "'" + text + "' library " + (accepted ? "accepts" : "rejects" + errText) + ", typing rules say " + refStr);
